@@ -132,12 +132,19 @@ DynBelow(t) ==
     [] t.k = "tuple" -> UNION {{[t EXCEPT !.es[i] = TDyn]} \cup {[t EXCEPT !.es[i] = x] : x \in DynBelow(t.es[i])} : i \in 1..Len(t.es)}
     [] t.k = "object" -> UNION {{[t EXCEPT !.as[n] = TDyn]} \cup {[t EXCEPT !.as[n] = x] : x \in DynBelow(t.as[n])} : n \in DOMAIN t.as}
     [] OTHER -> {}
+NullMenu(t) ==
+  CASE t.k = "number" -> {Unk(t, [null |-> "U", lo |-> Qn(0), loInc |-> TRUE]), Unk(t, [null |-> "U", lo |-> Qn(4), loInc |-> TRUE, hi |-> Qn(4), hiInc |-> TRUE])}
+    [] t.k = "string" -> {Unk(t, [null |-> "U", prefix |-> <<"a">>])}
+    [] IsCollT(t) -> {Unk(t, [null |-> "U", maxLen |-> 0]), Unk(t, [null |-> "U", minLen |-> 1, maxLen |-> 1]), Unk(t, [null |-> "U", minLen |-> 2])}
+    [] OTHER -> {}
 UnkMenu(c) ==
   IF c.st = "unk" THEN {}
   ELSE LET t == c.ty IN
     {Unk(t, [null |-> nn]) : nn \in NullFlags(c)} \cup
     \* unknown values of a type that still has a placeholder below its top (list(dynamic), object({a=dynamic}), ...)
     {Unk(g, [null |-> nn]) : g \in DynBelow(t), nn \in NullFlags(c)} \cup
+    \* a null is admitted by any refinement that leaves nullness open: bounds, prefixes and lengths constrain the non-null case only
+    (IF c.st = "null" THEN NullMenu(t) ELSE {}) \cup
     (IF c.st # "k" THEN {} ELSE
       CASE t.k = "number" -> UNION {{Unk(t, r) : r \in NumRefs(c.v, nn)} : nn \in NullFlags(c)}
         [] t.k = "string" -> UNION {{Unk(t, r) : r \in StrRefs(StrOf(c), nn)} : nn \in NullFlags(c)}
@@ -149,6 +156,7 @@ UnkMenuLite(c) ==
   IF c.st = "unk" THEN {}
   ELSE LET t == c.ty IN
     {Unk(t, NoRf)} \cup
+    (IF c.st = "null" THEN TakeN(NullMenu(t), 2) ELSE {}) \cup
     (IF c.st # "k" THEN {} ELSE
       {Unk(t, [null |-> "F"])} \cup
       CASE t.k = "number" /\ ~IsInfN(c.v) -> {Unk(t, [null |-> "F", lo |-> c.v, loInc |-> TRUE])}
